@@ -340,6 +340,17 @@ func dependsOnCall(v ssa.Value, seen map[ssa.Value]bool, fns ...*ssa.Function) b
 				return true
 			}
 		}
+		// a helper of pkg/eval/vars that runs the chain (assocInsideOut): one
+		// of its value returns comes from the chain
+		if callee := x.Call.StaticCallee(); callee != nil && callee.Blocks != nil && core.PkgPathOf(callee) == pkgVars && len(seen) < 60 {
+			found := false
+			core.Instrs(callee, func(ins ssa.Instruction) {
+				if ret, ok := ins.(*ssa.Return); ok && len(ret.Results) > 0 && !isNilConst(ret.Results[0]) && dependsOnCall(ret.Results[0], seen, fns...) {
+					found = true
+				}
+			})
+			return found
+		}
 	case *ssa.Extract:
 		return dependsOnCall(x.Tuple, seen, fns...)
 	case *ssa.Phi:
